@@ -13,7 +13,7 @@ import itertools
 import json
 import random
 
-from ..common import (Report, cbool, chex, clist, cstr, decide, load_findings, run_case_shards, run_impl,
+from ..common import (Report, case_hash, cbool, chex, clist, cstr, decide, load_findings, run_case_shards, run_impl,
                       standard_proof_part)
 from .. import pddlgen as G
 from ..core_common import build_world, catom, run_worlds, world_literal
@@ -71,7 +71,7 @@ def names_in(t, acc):
 
 
 BUDGET = {  # (leaves, two-leaf formulas, size-3 formulas, calls per formula, state cap per call); None = all
-    ("thorough", "F2"): (None, None, 300, None, 128),
+    ("thorough", "F2"): (None, None, 300, None, 64),
     ("thorough", "F3const"): (None, 120, 60, 5, 64),
     ("thorough", "F3obj"): (None, 100, 50, 5, 64),
     ("thorough", "F2clash"): (None, 150, 60, None, 64),
@@ -309,104 +309,136 @@ def run(args):
         jobs, exhaustive = scope_jobs(rng, args.tier)
     hashseeds = [0] if args.tier == "quick" else [0, 1, 2]
 
-    lits, units, cases = [], [], []
     stats = {"worlds": 0, "world_probes": 0, "world_app_true": 0, "world_app_false": 0, "world_app_raised": 0,
              "features": {}, "scope_probes": 0, "scope_true": 0, "scope_false": 0, "scope_raised": 0,
              "scope_formulas": {}, "scope_rows": 0, "scope_rows_capped": 0, "scope_by_size": {},
              "formulas_with_both_truth_values": 0, "formulas_total": 0}
+    # Everything is evaluated in chunks and only what the decision rule needs is kept (failing cases, counts, hashes of the
+    # non-trivial inputs): a thorough run has several hundred thousand probes.
+    acc = {"failing": [], "verdicts": "", "passed": 0, "nontrivial": set(), "nontrivial_scope": 0,
+           "info": {"shards": 0, "shard_errors": [], "cmd": ""}, "sample": None}
+
+    def evaluate(lits, units):
+        v, info = run_case_shards(PROP, "Corr.C02", lits, shard_size=8, run_fn="run_any", units=units,
+                                  header_extra=HEADER, max_bytes=90_000)
+        acc["info"]["shards"] += info["shards"]
+        acc["info"]["shard_errors"] += info["shard_errors"]
+        acc["info"]["cmd"] = info["cmd"]
+        return v
+
+    def record(case_fn, ch, nontrivial, key):
+        """one verdict of this property: count it, remember its hash when non-trivial, materialise it when it is not '.'"""
+        if nontrivial:
+            acc["nontrivial"].add(case_hash(key))
+        if ch == ".":
+            acc["passed"] += 1
+        else:
+            acc["failing"].append(case_fn())
+            acc["verdicts"] += ch
+
     # ---- worlds (every hash seed: the library's sets are hash-ordered), then the shipped fixtures (one hash seed)
-    streams = [(hs, worlds, run_worlds(worlds, hashseed=hs)) for hs in hashseeds]
+    def world_stream(hs, ws, results, count):
+        for start in range(0, len(ws), 150):
+            chunk = list(zip(ws[start:start + 150], results[start:start + 150]))
+            lits, units = [], []
+            for wd, res in chunk:
+                lit, u = world_literal(wd, res, cfg["epsilon"])
+                lits.append("(AW %s)" % lit)
+                units.append(u)
+            verdicts = evaluate(lits, units)
+            pos = 0
+            for (wd, res), lit, u in zip(chunk, lits, units):
+                vs = verdicts[pos:pos + u]
+                pos += u
+                if "vocab" in res:
+                    for pi, (pr, r) in enumerate(zip(wd["probes"], res["probes"])):
+                        ch = vs[1 + 2 * pi]                   # unit order: parse, then (app, succ) per probe
+
+                        def mk(wd=wd, pr=pr, r=r, lit=lit):
+                            inp = {"world": {kk: (wd[kk] if not (kk == "domain_text" and wd.get("fixture")) else None)
+                                             for kk in ("domain_text", "objects", "oof", "oof_kind", "features")},
+                                   "hashseed": hs, "implementation": r.get("app", r)}
+                            inp["world"]["fixture"] = wd.get("fixture")
+                            inp["world"]["probes"] = [pr]
+                            return {"lit": lit, "input": inp, "nontrivial": True, "witness_of": wd.get("witness_of")}
+                        nontrivial = (connectives(wd["domain_text"]) >= 2 or bool(wd.get("fixture"))) and len(pr["state"]["facts"]) > 0
+                        record(mk, ch, nontrivial, [wd["domain_text"], pr["action"], pr["args"], pr["state"], hs])
+                        if acc["sample"] is None:
+                            acc["sample"] = wd["domain_text"][:300]
+                        if count:
+                            stats["world_probes"] += 1
+                            a = r.get("app", {})
+                            stats["world_app_true" if a.get("value") is True else
+                                  "world_app_false" if a.get("value") is False else "world_app_raised"] += 1
+                if count:
+                    stats["worlds"] += 1
+                    for f in wd["features"]:
+                        stats["features"][f] = stats["features"].get(f, 0) + 1
+
+    for si, hs in enumerate(hashseeds):
+        world_stream(hs, worlds, run_worlds(worlds, hashseed=hs), si == 0)
     if fixture_only is not None or not args.replay:
         fw, fr = fixture_worlds(rng, args.tier, fixture_only)
         if fixture_only is not None:       # the replayed probe is one state of one call
             k = fixture_only["state_index"]
             fw[0]["probes"], fr[0]["probes"] = fw[0]["probes"][k:k + 1], fr[0]["probes"][k:k + 1]
-        streams.append((hashseeds[0], fw, fr))
         stats["fixtures"] = len(fw)
-    for si, (hs, ws, results) in enumerate(streams):
-        count = si == 0 or ws is not worlds
-        for wd, res in zip(ws, results):
-            lit, u = world_literal(wd, res, cfg["epsilon"])
-            lits.append("(AW %s)" % lit)
-            units.append(u)
-            kinds = ["parse"]
-            if "vocab" in res:
-                for pi in range(len(wd["probes"])):
-                    kinds += [("app", pi), ("succ", pi)]
-            for k in kinds:
-                if k == "parse" or k[0] == "succ":
-                    cases.append(None)                      # judged by C01 / C03; not this property's verdict
-                    continue
-                pi = k[1]
-                pr, r = wd["probes"][pi], res["probes"][pi]
-                inp = {"world": {kk: (wd[kk] if not (kk == "domain_text" and wd.get("fixture")) else None)
-                                 for kk in ("domain_text", "objects", "oof", "oof_kind", "features")},
-                       "hashseed": hs, "implementation": r.get("app", r)}
-                inp["world"]["fixture"] = wd.get("fixture")
-                inp["world"]["probes"] = [pr]
-                nontrivial = (connectives(wd["domain_text"]) >= 2 or bool(wd.get("fixture"))) and len(pr["state"]["facts"]) > 0
-                cases.append({"lit": "(AW %s)" % lit, "input": inp, "nontrivial": nontrivial,
-                              "witness_of": wd.get("witness_of")})
-                if count:
-                    stats["world_probes"] += 1
-                    a = r.get("app", {})
-                    stats["world_app_true" if a.get("value") is True else
-                          "world_app_false" if a.get("value") is False else "world_app_raised"] += 1
-            if count:
-                stats["worlds"] += 1
-                for f in wd["features"]:
-                    stats["features"][f] = stats["features"].get(f, 0) + 1
+        world_stream(hashseeds[0], fw, fr, True)
+
     # ---- scope
-    scope_index = []          # (job, row index, n) per scope probe, to build the replay input of a failing one lazily
     if jobs:
         results = run_impl([{k: v for k, v in j.items() if k != "meta"} for j in jobs], hashseed=hashseeds[-1])
         per_formula = {}
         for job, res in zip(jobs, results):
             if "answers" not in res:
                 raise RuntimeError("scope job failed on the implementation: %r" % (res,))
-            lit = scase_literal(job, res, cfg["epsilon"])
-            n = sum(len(a) for a in res["answers"])
-            lits.append(lit)
-            units.append(n)
-            for ri, (row, meta, ans) in enumerate(zip(job["rows"], job["meta"], res["answers"])):
+            for row, meta, ans in zip(job["rows"], job["meta"], res["answers"]):
                 assert len(ans) == n_states(job, row)
                 stats["scope_rows"] += 1
                 stats["scope_rows_capped"] += 1 if meta["capped"] else 0
-                key = (job["family"], meta["formula"])
-                tf = per_formula.setdefault(key, set())
-                for k, ch in enumerate(ans):
-                    tf.add(ch)
-                    stats["scope_probes"] += 1
-                    stats["scope_true" if ch == "T" else "scope_false" if ch == "F" else "scope_raised"] += 1
-                    cases.append({"lit": lit, "input": {"scope": job["family"], "formula": meta["formula"], "args": row["args"],
-                                                        "state_index": k, "answer": ch},
-                                  "nontrivial": False, "witness_of": None, "_lazy": (job, ri, k)})
+                per_formula.setdefault((job["family"], meta["formula"]), set()).update(ans)
+                stats["scope_probes"] += len(ans)
+                stats["scope_true"] += ans.count("T")
+                stats["scope_false"] += ans.count("F")
+                stats["scope_raised"] += ans.count("E")
                 stats["scope_by_size"][str(meta["size"])] = stats["scope_by_size"].get(str(meta["size"]), 0) + len(ans)
             stats["scope_formulas"][job["family"]] = stats["scope_formulas"].get(job["family"], 0) + \
                 len({m["formula"] for m in job["meta"]})
         stats["formulas_total"] = len(per_formula)
         stats["formulas_with_both_truth_values"] = sum(1 for v in per_formula.values() if "T" in v and "F" in v)
         both = {k for k, v in per_formula.items() if "T" in v and "F" in v}
-        for c in cases:
-            if c and "_lazy" in c:
-                job, ri, k = c["_lazy"]
-                c["nontrivial"] = connectives(c["input"]["formula"]) >= 2 and (job["family"], c["input"]["formula"]) in both
+        seen_rows = set()
+        for start in range(0, len(jobs), 48):
+            chunk = list(zip(jobs[start:start + 48], results[start:start + 48]))
+            lits = [scase_literal(job, res, cfg["epsilon"]) for job, res in chunk]
+            units = [sum(len(a) for a in res["answers"]) for _, res in chunk]
+            verdicts = evaluate(lits, units)
+            pos = 0
+            for (job, res), lit in zip(chunk, lits):
+                for row, meta, ans in zip(job["rows"], job["meta"], res["answers"]):
+                    vs = verdicts[pos:pos + len(ans)]
+                    pos += len(ans)
+                    nontrivial = connectives(meta["formula"]) >= 2 and (job["family"], meta["formula"]) in both
+                    rowkey = (job["family"], meta["formula"], tuple(row["args"]), row["base_facts"], row["base_fl"])
+                    if nontrivial and rowkey not in seen_rows:
+                        seen_rows.add(rowkey)
+                        acc["nontrivial_scope"] += len(ans)
+                    acc["passed"] += vs.count(".")
+                    for k, ch in enumerate(vs):
+                        if ch != ".":
+                            acc["failing"].append({"lit": lit, "input": {"scope": job["family"], "formula": meta["formula"],
+                                                                         "args": row["args"], "state_index": k, "answer": ans[k],
+                                                                         "world": single_probe_world(job, row, meta, k)},
+                                                   "nontrivial": nontrivial, "witness_of": None})
+                            acc["verdicts"] += ch
 
-    verdicts, info = run_case_shards(PROP, "Corr.C02", lits, shard_size=8, run_fn="run_any", units=units,
-                                     header_extra=HEADER, max_bytes=90_000)
-    # keep this property's verdicts only; enrich the failing scope probes with a replayable one-probe world
-    mine, mine_v = [], ""
-    for c, ch in zip(cases, verdicts):
-        if c is None:
-            continue
-        if "_lazy" in c:
-            job, ri, k = c.pop("_lazy")
-            if ch != ".":
-                c["input"]["world"] = single_probe_world(job, job["rows"][ri], job["meta"][ri], k)
-        mine.append(c)
-        mine_v += ch
-    decide(rep, PROP, "Corr.C02", mine, mine_v, info, explain_expr="explain_any %s", header_extra=HEADER, max_replays=5)
+    decide(rep, PROP, "Corr.C02", acc["failing"], acc["verdicts"], acc["info"], explain_expr="explain_any %s",
+           header_extra=HEADER, max_replays=5)
     cov = rep.coverage
+    cov["evaluations"] += acc["passed"]
+    cov["traces_validated_against_impl"] += acc["passed"]
+    cov["verdict_counts"]["."] = cov["verdict_counts"].get(".", 0) + acc["passed"]
+    cov["distinct_nontrivial"] = len(acc["nontrivial"]) + acc["nontrivial_scope"]
     cov["input_distribution"] = stats
     cov["hash_seeds"] = hashseeds
     cov["numeric_config"] = cfg
@@ -418,7 +450,7 @@ def run(args):
         "subtype u, and/or bodies); formulas = every leaf, every (and L1 L2) and (and (or L1 L2)) of two distinct leaves [family F2, "
         "thorough: all of them = exhaustive up to size 2; otherwise a seeded sample], plus sampled size-3 shapes (and/or nesting, forall "
         "with a nested or); calls = every pair over the universe (repeats and the constant included); states = every assignment "
-        "to the ground atoms of the mentioned predicates and to the mentioned fluents over the grid {0,1} (capped at 128 per call, "
+        "to the ground atoms of the mentioned predicates and to the mentioned fluents over the grid {0,1} (capped at 64 per call, "
         "32 in quick; capped rows are counted), all other atoms/fluents at a random base value.  Families: F2 (o1-t o2-u), F3const "
         "(+ constant k-u), F3obj (+ o3-t), F2clash (functions named q and z like the predicates).  worlds: generated typed domains "
         "(pddlgen) x 3 random states x <=5 type-correct calls per action; corpus: witnesses of the C02 findings; fixtures: shipped "
@@ -426,8 +458,7 @@ def run(args):
         "in the initial state), evaluated in the initial state and in perturbed copies of it.  "
         "A probe is non-trivial when its formula has >= 2 connectives and (scope) the run contains both a true and a false "
         "instance of that formula / (worlds) the state has facts; distinct by input hash.")
-    cov["samples"] = [m["formula"] for j in jobs[:2] for m in j["meta"][:2]] + \
-                     [(c["input"]["world"]["domain_text"] or "")[:300] for c in mine[:1] if "world" in c["input"]]
+    cov["samples"] = [m["formula"] for j in jobs[:2] for m in j["meta"][:2]] + [acc["sample"]]
     rep.assumptions = ["fluent magnitudes below 1e4 (C12 covers the tolerance boundary and infinities)", "ASCII text",
                        "states define every fluent the action reads",
                        "functions of arity <= 1 (for arity >= 3 with repeated objects the library's name-keyed fluent keys collide: D07)"]
